@@ -5,10 +5,10 @@ from vlib import Corr, Search, Failure
 
 ID = 'C21'
 LEVEL = 'proof'
-PROPS = ['Props/C21.v', 'Findings/C21.v']
+PROPS = ['Props/C21.v']
 TRUSTED = [
     'hand-written model Model/C21Reload.v of Entity._db_set_ / Attribute.db_set (per-attribute reload decision), Attribute.__get__/__set__ bits, '
-    'volatile exemption, Set.load / copy / __len__, Set.db_reverse_add, Set.db_reverse_remove and the many-to-many phantom checks; tied on every '
+    'volatile exemption, Set.load / copy / __len__, Set.db_reverse_add, Set.db_reverse_remove (with its phantom-disappeared check) and the many-to-many phantom checks; tied on every '
     'run by replaying every enumerated history (reader operations with committed writer sessions inserted at every position) on real '
     'db_sessions over a SQLite file and comparing failure flag and every observation with the model inside Coq (vm_compute)',
     'the harness (tools/c20_sessions.py, c21_driver.py): worker threads stepped by a controller; the external values a re-fetch brings are read '
@@ -128,7 +128,6 @@ def gen_cases(ctx, deep=False):
 # ------------------------------------------------------------------------------------------------ implementation runs (cached)
 
 _cache = {}
-_variant = ['unfixed']
 
 def case_key(c):
     return json.dumps(c, sort_keys=True)
@@ -141,7 +140,6 @@ def run_real(cases):
     todo = [c for c in cases if case_key(c) not in _cache]
     if todo:
         out = vlib.run_impl('c21_driver.py', {'cases': todo}, timeout=1500)
-        _variant[0] = out.get('variant', 'unfixed')
         for c, r in zip(todo, out['results']):
             _cache[case_key(c)] = r
         if out.get('error') or out.get('stuck'):
@@ -173,7 +171,7 @@ def coq_case(c, r):
         return 'outcome_eqb (outcome VOL %s) (%s, %s)' % (clist(r['model'], cev), vlib.cbool(r['failed']), tev)
     obs = '[' + '; '.join(cnats(e[2]) for e in r['events']) + ']'
     if not r['events']: obs = '(@nil (list nat))'
-    return 'coutcome_eqb (%s %s %s) (%s, %s)' % ('coutcome_fixed' if _variant[0] == 'fixed' else 'coutcome', vlib.cbool(c['m2m']), clist(r['model'], cev), vlib.cbool(r['failed']), obs)
+    return 'coutcome_eqb (coutcome %s %s) (%s, %s)' % (vlib.cbool(c['m2m']), clist(r['model'], cev), vlib.cbool(r['failed']), obs)
 
 HEADER = ('From Coq Require Import ZArith List Bool.\nImport ListNotations.\nRequire Import PonyV.Model.C21Reload.\n\nOpen Scope nat_scope.\n'
           'Definition VOL : list bool := %s.\n' % VOL)
@@ -207,12 +205,11 @@ def nontrivial_case(c, r):
 def correspondence(ctx):
     cases = gen_cases(ctx)
     disagreements, samples = [], []
-    dist = {'db_reverse_remove_variant': None, 'scalar': 0, 'one_to_many': 0, 'many_to_many': 0, 'ended_in_UnrepeatableReadError': 0, 'writer_actions': 0, 'observations': 0}
+    dist = {'scalar': 0, 'one_to_many': 0, 'many_to_many': 0, 'ended_in_UnrepeatableReadError': 0, 'writer_actions': 0, 'observations': 0}
     try:
         results = run_real(cases)
     except DriverProblem as e:
         return Corr(cases=len(_cache), disagreements=[{'what': 'real sessions did not finish (deadlock or driver error)', 'input': e.case, 'impl': str(e.what)[:1500]}])
-    dist['db_reverse_remove_variant'] = _variant[0]
     exprs, meta, nontriv = [], [], set()
     for c, r in zip(cases, results):
         dist['scalar' if c['kind'] == 'scalar' else 'many_to_many' if c['m2m'] else 'one_to_many'] += 1
@@ -307,9 +304,9 @@ def replay(ctx, data):
 LEVEL_TEXT = ('Machine-checked proof (Coq 8.16.1) over an executable model of Pony\'s reload logic: for ALL histories of reads, own writes and '
               're-fetched columns carrying arbitrary external values, every value read for a non-volatile attribute equals the previous value '
               'read or written for it, or the run has ended in UnrepeatableReadError (and the error is raised exactly when a read column comes '
-              'back different). Collections: all observations of a many-to-many collection are equal under all histories; for one-to-many the '
-              'same holds after an iteration/copy, and in general on the exact complement of one recorded defect (a member without read bit '
-              'moves away while the collection is only known through len()/bool()), refuted by a witness. Every run replays every reader '
+              'back different). Collections (one-to-many and many-to-many): all observations of a collection are equal under all histories of '
+              'observations, re-fetched member rows and loads of the other side (the former defect - a member silently dropped from a collection '
+              'known only through len() - was repaired in the repo, commit a9972eb, and is now part of the model). Every run replays every reader '
               'program x writer action x insertion position on real sessions over a SQLite file and compares with the model by vm_compute.')
 LEVEL_NOTE = ('Partial: one object / one collection; Attribute.db_set is tied only through lazy loads; reader queries after own writes (auto-flush) and '
               'batch prefetching are outside the model. Trusted: Coq kernel + vm_compute; the session-stepping harness; raw-connection snapshots of '
